@@ -235,6 +235,19 @@ def run(chk):
         chk.search_cases += 1
         if not np.array_equal(sig[a] @ sig[b] - sig[b] @ sig[a], 2j * sig[c]) or not np.array_equal(sig[a] @ sig[a], np.eye(2)):
             chk.fail("sigma-table", f"oqupy.operators.sigma: [s{a}, s{b}] != 2i s{c} or s{a}^2 != 1", {"axes": a + b + c})
+    chk.search_cases += 1
+    sp_, sm_ = opr.sigma("+"), opr.sigma("-")
+    if not (np.array_equal(opr.sigma("id"), np.eye(2)) and np.array_equal(sp_ + sm_, sig["x"]) and np.array_equal(-1j * (sp_ - sm_), sig["y"])
+            and np.array_equal(sp_ @ sm_ - sm_ @ sp_, sig["z"])):
+        chk.fail("sigma-table", "oqupy.operators.sigma: 'id' is not the identity or '+' / '-' are not (sx +- i sy)/2", {"axes": "id+-"})
+    for n_ in (1, 2, 3, 5):
+        chk.search_cases += 1
+        a_, ad_ = opr.destroy(n_), opr.create(n_)
+        num = np.diag(np.arange(n_)).astype(complex)
+        # a|k> = sqrt(k)|k-1>, create = destroy^+, a^+ a = number operator (truncated oscillator)
+        if a_.shape != (n_, n_) or not np.array_equal(ad_, a_.conj().T) or not np.allclose(ad_ @ a_, num, atol=1e-14, rtol=0) \
+                or any(abs(a_[k - 1, k] - np.sqrt(k)) > 1e-15 for k in range(1, n_)):
+            chk.fail("ladder-table", f"oqupy.operators.destroy({n_}) / create({n_}) are not the truncated oscillator ladder operators", {"n": n_})
     chk.count("operator_tables")
 
     # ---- (b2) two-site generators of SystemChain (add_nn_hamiltonian / add_nn_dissipation, any rate): they are the
